@@ -30,3 +30,6 @@ impl Value {
     #[verifier::external_body] pub fn set_multiasset(&mut self, multiasset: &MultiAsset) ensures final(self).coin == old(self).coin, final(self).multiasset == Some(*multiasset) { unimplemented!() }
     #[verifier::external_body] pub fn is_zero(&self) -> (r: bool) ensures r ==> self.coin.0 == 0 && forall|a: AssetId| qty(*self, a) == 0 { unimplemented!() }
 }
+
+/// `ma.partial_cmp(&MultiAsset::new()) == Some(Greater)`: some quantity is positive (MultiAsset's partial order is proved component-wise in unit ma_cmp)
+#[verifier::external_body] pub fn ma_has_positive_(ma: &MultiAsset) -> (r: bool) ensures r == exists|a: AssetId| ma_qty(*ma, a) > 0 { unimplemented!() }
